@@ -147,6 +147,8 @@ def same_value(a, b):
     if isinstance(a, ArrV) and isinstance(b, ArrV):
         if a.n != b.n:
             return False
+        if a.chunks is b.chunks and a.base is b.base and a.fill is b.fill:
+            return True
         if a.n <= 4096 and a.base is None and b.base is None:
             return all(same_value(a.get(i), b.get(i)) for i in range(a.n))
         if a.w is not None and b.w is not None:
@@ -162,4 +164,41 @@ def same_value(a, b):
         return a.same(b)
     if isinstance(a, OpaqueV) and isinstance(b, OpaqueV):
         return a.token == b.token
+    from .evalmir import PrimV, ClosureV, FnV
+    if isinstance(a, PrimV) and isinstance(b, PrimV):
+        if a.kind != b.kind:
+            return False
+        da = a.data if isinstance(a.data, tuple) else (a.data,)
+        db = b.data if isinstance(b.data, tuple) else (b.data,)
+        return len(da) == len(db) and all(same_value(x, y) if not isinstance(x, (int, str, bool, dict, type(None))) else x == y for x, y in zip(da, db))
+    if isinstance(a, ClosureV) and isinstance(b, ClosureV):
+        return a.defpath == b.defpath and all(same_value(x, y) for x, y in zip(a.upvars, b.upvars))
+    if isinstance(a, FnV) and isinstance(b, FnV):
+        return a.callee.get("path") == b.callee.get("path")
     return False
+
+
+def symbolic_args(ev, st, body, prefix="a"):
+    """symbolic argument values for a body, by parameter type; returns (args, {argname: obj id of pointee})"""
+    args = []
+    objs = {}
+    for i in range(1, body["argc"] + 1):
+        tyid = body["locals"][i]
+        t = ev.tys[tyid]
+        name = body["names"].get(str(i)) or "%s%d" % (prefix, i)
+        if t["k"] in ("ref", "ptr"):
+            pt = ev.tys[t["to"]]
+            if pt["k"] == "slice":
+                ew = ev.scalar_width(ev.strip_newtypes(pt["elem"])) or 8
+                r, oid = sym_slice(ev, st, name, ew)
+                r.mut = t["mut"]
+                args.append(r)
+                objs[name] = oid
+            else:
+                v = ev.symbolic(t["to"], name, [])
+                oid = st.alloc(v, name)
+                args.append(Ref(oid, (), None, t["mut"]))
+                objs[name] = oid
+        else:
+            args.append(ev.symbolic(tyid, name, []))
+    return args, objs
